@@ -95,8 +95,10 @@ func VerifC05Watch() {
 
 // vWriteSeq issues a fixed sequence of successful writes (create, then updates) with symbolic
 // values on vNames[0]; it returns nothing and never waits for the sequencer.
-func (w *vWorld) vWriteSeq(n int) {
-	key := vNames[0]
+func (w *vWorld) vWriteSeq(n int) { w.vWriteSeqOn(vNames[0], n) }
+
+// vWriteSeqOn is vWriteSeq on the given key.
+func (w *vWorld) vWriteSeqOn(key []byte, n int) {
 	var last uint64
 	if cur, ok := w.g.At(key, 0); ok {
 		last = cur.Rev
